@@ -50,6 +50,16 @@ class Check:
             raise core.Infra("Apalache refutes the inductive invariant of %s: %s" % (module, r["steps"]))
         return r
 
+    def proof(self, module, **kw):
+        """TLAPS: a machine-checked proof about a design-level module (all parameter values).  Failed
+        obligations are a specification defect (Infra); a missing / unfinished tlapm decides nothing."""
+        r = core.tlaps(self.rd, module, **kw)
+        self.models.append(dict(module=module, cfg="tlapm", generated=0, distinct=0, tlaps=r,
+                                result=("proved, %d obligations" % r["obligations"]) if r["ok"] else "not run: " + str(r.get("note", r))[:200]))
+        if r["ok"] is False:
+            raise core.Infra("tlapm: %d of %d obligations of %s failed" % (r["failed"], r["obligations"], module))
+        return r
+
     def exec_and_validate(self, module, cmds, keyfn, accel=False, cost=None, shards=None,
                           result_keys=None, timeout=3000, tag="t", env=None, pure_budget=0,
                           families=("bits",), variant=None):
